@@ -50,13 +50,14 @@ InsertAll(P, Xs) == IF Xs = {} THEN P ELSE LET x == CHOOSE y \in Xs : TRUE IN In
 LeafPairs(A0, B0) == {<<r[3], PostB(B0, r[1], <<>>)>> : r \in {x \in A0.rules : Len(x[2]) = 0}}
 Bad(X, Y, p) == p[1] \in X.fin /\ p[2] \cap Y.fin = {}
 
-Init ==
-  \E A0 \in Auts({0, 1}), B0 \in BUniverse :
-    LET At == Trim(A0)  Bt == Trim(B0)  LP == LeafPairs(At, Bt) IN
-    /\ A = At /\ B = Bt /\ cur = <<>> /\ todo = {}
-    /\ IF Cardinality(LeafSyms(Bt)) < Cardinality(LeafSyms(At)) THEN verdict = "F" /\ processed = {} /\ next = {}
-       ELSE IF ~NoFinalCheck /\ \E p \in LP : Bad(At, Bt, p) THEN verdict = "F" /\ processed = {} /\ next = {}
-       ELSE /\ verdict = "run" /\ processed = InsertAll({}, LP) /\ next = InsertAll({}, LP)
+\* the leaf phase (Post of the empty tuple) on already trimmed operands
+LeafPhase(At, Bt) ==
+  LET LP == LeafPairs(At, Bt) IN
+  /\ A = At /\ B = Bt /\ cur = <<>> /\ todo = {}
+  /\ IF Cardinality(LeafSyms(Bt)) < Cardinality(LeafSyms(At)) THEN verdict = "F" /\ processed = {} /\ next = {}
+     ELSE IF ~NoFinalCheck /\ \E p \in LP : Bad(At, Bt, p) THEN verdict = "F" /\ processed = {} /\ next = {}
+     ELSE /\ verdict = "run" /\ processed = InsertAll({}, LP) /\ next = InsertAll({}, LP)
+Init == \E A0 \in Auts({0, 1}), B0 \in BUniverse : LeafPhase(Trim(A0), Trim(B0))
 
 Pick ==
   /\ verdict = "run" /\ cur = <<>> /\ next # {}
@@ -76,12 +77,13 @@ Combos(r, j, i) ==
        IN IF ~reachable THEN {} ELSE UNION {{<<S>> \o c : c \in Combos(r, j, i + 1)} : S \in here}
 Posts(r, j) == {PostB(B, r[1], c) : c \in Combos(r, j, 1)}
 
-StepRule ==
-  /\ verdict = "run" /\ cur # <<>> /\ todo # {}
-  /\ \E x \in todo :
-       LET r == x[1]  ps == Posts(r, x[2]) IN
+\* one rule visit; a post image that is EMPTY ends with FALSE as well (the operands are trimmed: a tree A can still extend
+\* to an accepted one has no run in B at all)
+StepRuleOf(x) ==
+  /\ verdict = "run" /\ cur # <<>> /\ x \in todo
+  /\ LET r == x[1]  ps == Posts(r, x[2]) IN
        /\ todo' = todo \ {x}
-       /\ IF ~NoFinalCheck /\ \E S \in ps : Bad(A, B, <<r[3], S>>)
+       /\ IF ~NoFinalCheck /\ \E S \in ps : S = {} \/ Bad(A, B, <<r[3], S>>)
           THEN verdict' = "F" /\ UNCHANGED <<processed, next>>
           ELSE LET new == {<<r[3], S>> : S \in ps}
                    tmp == InsertAll({}, new)
@@ -91,6 +93,7 @@ StepRule ==
                   /\ next' = {p \in next : p \in P2} \cup (P2 \ processed)
                   /\ UNCHANGED verdict
   /\ UNCHANGED <<A, B, cur>>
+StepRule == \E x \in todo : StepRuleOf(x)
 EndPick == /\ verdict = "run" /\ cur # <<>> /\ todo = {} /\ cur' = <<>> /\ UNCHANGED <<A, B, processed, next, todo, verdict>>
 Finish == /\ verdict = "run" /\ cur = <<>> /\ next = {} /\ verdict' = "T" /\ UNCHANGED <<A, B, processed, next, cur, todo>>
 Next == Pick \/ StepRule \/ EndPick \/ Finish
